@@ -2,6 +2,154 @@
 
 package mimetype
 
-func (g *vfGen) runMore13(slice string) bool { return false }
+import (
+	"bytes"
+	"fmt"
+	"os"
+	"os/exec"
+	"runtime/debug"
+	"strconv"
+	"strings"
+	"time"
 
-func vfExecMore13(f []string, op string) (string, bool) { return "", false }
+	vjson4 "github.com/gabriel-vasile/mimetype/internal/json"
+)
+
+func vfBombInput(shape string, depth int) []byte {
+	var open, close string
+	switch shape {
+	case "arr":
+		open, close = "[", "]"
+	case "arropen":
+		open, close = "[", ""
+	case "obj":
+		open, close = `{"k":`, "}"
+	case "mixed":
+		open, close = `[{"k":`, "}]"
+	case "padded":
+		open, close = "[ \n", " ]"
+	case "objpad":
+		open, close = "{ \"k\" : ", " }"
+	}
+	var b bytes.Buffer
+	b.Grow(depth*(len(open)+len(close)) + 8)
+	for i := 0; i < depth; i++ {
+		b.WriteString(open)
+	}
+	if strings.Contains(open, ":") && !strings.HasPrefix(open, "[") {
+		b.WriteString("1")
+	} else if strings.HasPrefix(open, "[{") {
+		b.WriteString("1")
+	}
+	if close != "" {
+		for i := 0; i < depth; i++ {
+			b.WriteString(close)
+		}
+	}
+	return b.Bytes()
+}
+
+// vfBombChild: run one detection under a small stack limit and report the result.
+func vfBombChild() {
+	debug.SetMaxStack(8 << 20)
+	f := strings.Split(os.Getenv("VERIF_BOMB"), ":")
+	depth, _ := strconv.Atoi(f[1])
+	lim, _ := strconv.ParseUint(f[2], 10, 32)
+	in := vfBombInput(f[0], depth)
+	// earlier detections that leave the pooled parser dirty (aborted deep parses)
+	Detect(bytes.Repeat([]byte("["), 300))
+	Detect([]byte(strings.Repeat(`{"k":`, 300)))
+	SetLimit(uint32(lim))
+	m := Detect(in)
+	fmt.Printf("RESULT %s\n", vfHex([]byte(m.String())))
+}
+
+func vfExecMore13(f []string, op string) (string, bool) {
+	switch f[0] {
+	case "bomb": // bomb shape depth lim
+		cmd := exec.Command(os.Args[0])
+		cmd.Env = append(os.Environ(), "VERIF_CMD=bombchild", "VERIF_BOMB="+f[1]+":"+f[2]+":"+f[3], "GOMEMLIMIT=4GiB")
+		var out bytes.Buffer
+		cmd.Stdout = &out
+		done := make(chan error, 1)
+		cmd.Start()
+		go func() { done <- cmd.Wait() }()
+		select {
+		case err := <-done:
+			if err != nil {
+				return fmt.Sprintf("%s => died %s", op, strings.ReplaceAll(err.Error(), " ", "_")), true
+			}
+		case <-time.After(120 * time.Second):
+			cmd.Process.Kill()
+			return op + " => died timeout", true
+		}
+		res := "noresult"
+		for _, l := range strings.Split(out.String(), "\n") {
+			if strings.HasPrefix(l, "RESULT ") {
+				res = l[7:]
+			}
+		}
+		return fmt.Sprintf("%s => survived %s", op, res), true
+	case "jcap": // jcap cap q hex
+		cap, _ := strconv.Atoi(f[1])
+		raw, _ := vfExact(vfUnhex(f[3]))
+		p, i, t, q := vjson4.VerifParseCap(f[2], raw, cap)
+		return fmt.Sprintf("%s => %d %d %d %v", op, p, i, t, q), true
+	}
+	return vfExecMore14(f, op)
+}
+
+func (g *vfGen) runMore13(slice string) bool {
+	switch slice {
+	case "C16":
+		g.genC16()
+	default:
+		return g.runMore14(slice)
+	}
+	return true
+}
+
+func (g *vfGen) genC16() {
+	shapes := []string{"arr", "arropen", "obj", "mixed", "padded", "objpad"}
+	// model agreement at small caps: every shape at depths around the cap
+	for cap := 1; cap <= 5; cap++ {
+		for _, sh := range shapes {
+			for d := 1; d <= cap+3; d++ {
+				g.emit(vfOp("jcap", cap, "json", vfBombInput(sh, d)))
+			}
+		}
+		for i := 0; i < g.pick(60, 1500); i++ {
+			g.emit(vfOp("jcap", cap, []string{"json", "geo"}[g.rng.Intn(2)], []byte(g.jdocument())))
+		}
+	}
+	// the real cap: verdicts at cap-1 .. cap+2 (through Parse and through Detect)
+	for _, sh := range shapes {
+		ds := []int{4096, 4097}
+		if g.thorough {
+			ds = []int{4095, 4096, 4097, 4098}
+		}
+		for _, d := range ds {
+			in := vfBombInput(sh, d)
+			g.emit(vfOp("jparse", "json", in))
+			if g.thorough || sh == "arr" || sh == "obj" {
+				g.emit(vfOp("jany", in))
+			}
+		}
+	}
+	// bombs under an 8 MiB stack
+	depths := []int{10000, 300000}
+	if g.thorough {
+		depths = append(depths, 2000000, 20000000)
+	}
+	for _, sh := range shapes {
+		for _, d := range depths {
+			if (sh == "mixed" || sh == "objpad") && d > 2000000 {
+				continue
+			}
+			g.emit(vfOp("bomb", sh, d, 0))
+			if d <= 200000 {
+				g.emit(vfOp("bomb", sh, d, 4294967295))
+			}
+		}
+	}
+}
